@@ -16,7 +16,8 @@ RULE = (
     "499999,500000,999999} and every us of one (thorough: four) chosen seconds. timestamp-millis/micros and local variants: "
     "every day of the boundary years and the first/last day of every month 0001..9999 (thorough: every day) x "
     "{00:00:00, 23:59:59.999999}, every second of the days around the epoch, year 1 and year 9999 x sub-second set, x every "
-    "whole-minute UTC offset in (-24h,+24h) on the boundary instants and {0,+-00:01,+-05:30,+-23:59} elsewhere; naive values "
+    "whole-minute UTC offset in (-24h,+24h) on the boundary instants, ambiguous/skipped wall-clock times around DST changes in 6 "
+    "zones with fold=0 then fold=1 (and reversed) on the same tzinfo object and {0,+-00:01,+-05:30,+-23:59} elsewhere; naive values "
     "under timestamp types with TZ=UTC. uuid: all-zero, all-one, every single-bit value, RFC variants. decimal: precision "
     "1..3 (thorough 1..4) x scale 0..precision x storage {bytes, fixed 1..4 that admit the precision} x EVERY coefficient of "
     "up to precision+1 digits x exponent -(scale+2)..+3 x sign (incl. -0), values around +-2^(8k-1) for fixed sizes up to 16, "
@@ -63,6 +64,7 @@ def units(tier):
         for part in range(8):
             us.append(("boundary-day", which, part))
     us.append(("offsets",))
+    us.append(("dst-fold",))
     us.append(("uuid",))
     for p in range(1, (3 if tier == "quick" else 4) + 1):
         for sc in range(0, p + 1):
@@ -263,6 +265,62 @@ def run_unit(unit, tier):
                 v = base.replace(tzinfo=datetime.timezone(datetime.timedelta(minutes=off)) if off else UTC)
                 check_ts(ctx, "aware", v)
         res.sample({"type": "timestamps", "every_whole_minute_offset_at": [str(i) for i in instants]})
+    elif kind == "dst-fold":
+        # ambiguous wall-clock times in zones with daylight saving: fold=0 and fold=1 denote different
+        # instants although the two datetimes compare and hash equal (same tzinfo object)
+        class Dst(datetime.tzinfo):
+            """+1h from the last Sunday of March 01:00 UTC to the last Sunday of October 01:00 UTC (EU rule), base offset given."""
+
+            def __init__(self, base):
+                self.base = datetime.timedelta(minutes=base)
+
+            def _is_dst(self, dt):
+                y = dt.year
+                def last_sunday(month):
+                    d = datetime.datetime(y, month, 31 if month in (3, 10) else 30)
+                    return d - datetime.timedelta(days=(d.weekday() + 1) % 7)
+                start = last_sunday(3).replace(hour=1) + self.base
+                end = last_sunday(10).replace(hour=1) + self.base + datetime.timedelta(hours=1)
+                naive = dt.replace(tzinfo=None)
+                if start + datetime.timedelta(hours=1) <= naive < end - datetime.timedelta(hours=1):
+                    return True
+                if end - datetime.timedelta(hours=1) <= naive < end:
+                    return dt.fold == 0  # the repeated hour: first pass is still summer time
+                return False
+
+            def utcoffset(self, dt):
+                return self.base + (datetime.timedelta(hours=1) if self._is_dst(dt) else datetime.timedelta(0))
+
+            def dst(self, dt):
+                return datetime.timedelta(hours=1) if self._is_dst(dt) else datetime.timedelta(0)
+
+            def tzname(self, dt):
+                return "DST%s" % self.base
+
+        zones = [Dst(60), Dst(0), Dst(-300)]
+        try:
+            import zoneinfo
+
+            zones += [zoneinfo.ZoneInfo("America/New_York"), zoneinfo.ZoneInfo("Europe/Berlin"), zoneinfo.ZoneInfo("Australia/Lord_Howe")]
+        except Exception:
+            res.stats["zoneinfo_unavailable"] += 1
+        walls = []
+        for y in (1996, 2021, 2037):
+            for mo, day in ((10, 31), (10, 27), (11, 7), (11, 3), (4, 4), (3, 28), (3, 14)):
+                for h in (0, 1, 2, 3):
+                    for mi, us_ in ((0, 0), (30, 0), (59, 999999)):
+                        try:
+                            walls.append(datetime.datetime(y, mo, day, h, mi, 59 if mi == 59 else 0, us_))
+                        except ValueError:
+                            pass
+        for z in zones:
+            for w in walls:
+                for folds in ((0, 1), (1, 0)):
+                    for f in folds:
+                        v = w.replace(tzinfo=z, fold=f)
+                        for raw in TS_TYPES[:2]:
+                            ctx.check(raw, v)
+        res.sample({"type": "timestamps", "dst_zones": len(zones), "wall_clock_times": len(walls), "each_with": "fold 0 then 1, and 1 then 0, same tzinfo object"})
     elif kind == "uuid":
         raw = S("string", "uuid")
         vals = [uuid.UUID(int=0), uuid.UUID(int=(1 << 128) - 1)] + [uuid.UUID(int=1 << b) for b in range(128)]
